@@ -509,6 +509,15 @@ def run_project(ctx: core.Ctx, spec: dict[str, Any], stream: str) -> None:
                 else:
                     same = sha(b2["path"]) == sha(bw["path"]) and b2["path"].name == bw["path"].name
                     ctx.count("rebuild:" + ("identical" if same else "different"))
+                    # decidable boundary of theorem C09.wheel_from_sdist_eq_decidable: no VCS-ignored list, no relocated
+                    # package, no wheel rule reaching PKG-INFO (+ premise and successful rebuild, both established here)
+                    bd = core.run_driver([core.line("boundary", tree, cfg)])[0]
+                    inside = bd[:3] == ["ok", "1", "1"] and not [x for x in ign_list if x]
+                    ctx.count("boundary:" + ("inside" if inside else "outside:" + ("vcs" if [x for x in ign_list if x] else "")
+                                             + ("" if bd[:2] == ["ok", "1"] else "+ambiguous-arc") + ("" if bd[2:3] == ["1"] else "+pkginfo")))
+                    if inside and sorted(wheel_names(bw["path"])) != sorted(wheel_names(b2["path"])):
+                        dis += 1     # would contradict the theorem (or the model no longer mirrors the selection)
+                        ctx.disagree(stream + ":theorem-boundary", spec, "wheels differ", bd)
                     if not same:
                         n1, n2 = wheel_names(bw["path"]), wheel_names(b2["path"])
                         added = sorted(set(n2) - set(n1))
